@@ -337,3 +337,30 @@ def locals_engine(prop, tier, work, name):
         ("new array/struct local that is not wiped and not known to be free of secrets: " + "; ".join(unk)) if unk else
         "every array/struct local of library code (%d) is wiped through the injected memzero in its own function; allow-listed non-secret locals: salt (keygen, crypt), self-test buffers" % len(ok))
     return [{"name": "S.locals", "status": st, "evaluated": len(sf["agg_locals"]), "detail": det, "sample": ", ".join(ok[:6])}]
+
+
+# ------------------------------------------------------------------------------------------ encode x every table word
+@engine("encwords")
+def encwords_engine(prop, tier, work, name):
+    """closed obligation over the tables x the real polyseed_encode (native, ASan/UBSan build of replay/replay.c)"""
+    import replaylib
+    exe, err = replaylib.build(work, "signed")
+    if exe is None:
+        return [{"name": "T.encode_words", "status": "undecided", "evaluated": 0, "detail": "replay driver does not build: " + err[-300:]}]
+    env = dict(os.environ, ASAN_OPTIONS="detect_leaks=0", UBSAN_OPTIONS="print_stacktrace=0")
+    try:
+        p = subprocess.run([exe, "encode_all"], capture_output=True, text=True, timeout=600, env=env, errors="replace")
+    except subprocess.TimeoutExpired:
+        return [{"name": "T.encode_words", "status": "undecided", "evaluated": 0, "detail": "timeout"}]
+    rows = []
+    for line in p.stdout.splitlines():
+        if line.startswith("{"):
+            try:
+                r = json.loads(line); r["sample"] = r.get("detail", "")[:160]; rows.append(r)
+            except Exception:
+                pass
+    if len(rows) < 1 or (p.returncode not in (0, 1)):
+        # a sanitizer abort inside the real encode is a failing input in itself
+        return [{"name": "T.encode_words[sanitizer]", "status": "fail", "evaluated": 1,
+                 "detail": "the real polyseed_encode aborted under ASan/UBSan while encoding the table words: " + (p.stderr or p.stdout)[-400:].replace("\n", " ")}]
+    return rows
